@@ -28,6 +28,7 @@ structure InvQ (s : State) : Prop where
   closedS_wr : s.openSend = 0 → s.waitingReceivers = []
   eos_state : ∀ t, (s.pc t = .recvWoken none ∨ s.pc t = .recvWokenMC none) →
     s.openSend = 0 ∧ s.buffer = [] ∧ s.waitingSenders = []
+  chk_handle : ∀ t h x pre, s.pc t = .sendChk h x pre → h < s.nS
 
 theorem invQ_init (m : Option Nat) : InvQ (init m) := by
   constructor <;> simp [init, openCount]
@@ -42,7 +43,7 @@ theorem wakeSender_cases (p : Pc) :
 
 theorem invQ_step_env {s s' : State} {o : Out} {t : Nat} (hi : InvQ s)
     (hs : step s (.fc t) = some (s', o) ∨ step s (.mc t) = some (s', o)) : InvQ s' := by
-  obtain ⟨h1, h2, h3, h4, h5, h6, h7, h8, h9, h10, h11, h12, h13, h14, h15, h16, h17, h18⟩ := hi
+  obtain ⟨h1, h2, h3, h4, h5, h6, h7, h8, h9, h10, h11, h12, h13, h14, h15, h16, h17, h18, h19⟩ := hi
   rcases hs with hs | hs
   · simp only [step] at hs
     split at hs
@@ -74,16 +75,20 @@ theorem InvQ.congr {s s' : State} (hi : InvQ s)
     (e6 : s'.waitingSenders = s.waitingSenders) (e7 : s'.nS = s.nS) (e8 : s'.nR = s.nR)
     (e9 : s'.closedS = s.closedS) (e10 : s'.closedR = s.closedR) (e11 : s'.pc = s.pc) :
     InvQ s' := by
-  obtain ⟨h1, h2, h3, h4, h5, h6, h7, h8, h9, h10, h11, h12, h13, h14, h15, h16, h17, h18⟩ := hi
+  obtain ⟨h1, h2, h3, h4, h5, h6, h7, h8, h9, h10, h11, h12, h13, h14, h15, h16, h17, h18, h19⟩ := hi
   constructor <;> simp only [e1, e2, e3, e4, e5, e6, e7, e8, e9, e10, e11] <;> assumption
 
 theorem InvQ.setNeutral {s : State} (hi : InvQ s) (t : Nat) (p : Pc)
-    (h0 : neutral (s.pc t) = true) (hp : neutral p = true) :
+    (h0 : neutral (s.pc t) = true) (hp : neutral p = true)
+    (hp2 : ∀ h x pre, p = .sendChk h x pre → h < s.nS) :
     InvQ { s with pc := upd s.pc t p } := by
-  obtain ⟨h1, h2, h3, h4, h5, h6, h7, h8, h9, h10, h11, h12, h13, h14, h15, h16, h17, h18⟩ := hi
+  obtain ⟨h1, h2, h3, h4, h5, h6, h7, h8, h9, h10, h11, h12, h13, h14, h15, h16, h17, h18, h19⟩ := hi
   have a := neutral_ne h0
   have b := neutral_ne hp
   constructor <;> grind
+
+@[grind =] theorem fits_some (m n : Nat) : fits (some m) n = decide (n < m) := rfl
+@[grind =] theorem fits_none (n : Nat) : fits none n = true := rfl
 
 theorem orphanize_apply (d : List Nat) (pc : Nat → Pc) (v : Nat) :
     orphanize d pc v = if v ∈ d ∧ pc v = .recvWait then .recvOrphan else pc v := rfl
@@ -93,11 +98,11 @@ theorem invQ_sendCore {s : State} (hi : InvQ s) {h x : Nat} (P : List Nat) (hh :
     InvQ (sendCore s h x P).1 := by
   have hopen : s.closedS h = false → s.openSend ≠ 0 := by
     intro hc; have := openCount_pos hh hc; rw [← hi.openSend_eq] at this; omega
-  obtain ⟨h1, h2, h3, h4, h5, h6, h7, h8, h9, h10, h11, h12, h13, h14, h15, h16, h17, h18⟩ := hi
+  obtain ⟨h1, h2, h3, h4, h5, h6, h7, h8, h9, h10, h11, h12, h13, h14, h15, h16, h17, h18, h19⟩ := hi
   rcases sendCore_cases s h x P with ⟨hc, he⟩ | ⟨hc, ho, he⟩ | ⟨hc, ho, d, u, rest, hw, hd, hu, huP, he⟩ |
     ⟨hc, ho, hd, hf, he⟩ | ⟨hc, ho, hd, hf, he⟩
-  · rw [he]; exact ⟨h1, h2, h3, h4, h5, h6, h7, h8, h9, h10, h11, h12, h13, h14, h15, h16, h17, h18⟩
-  · rw [he]; exact ⟨h1, h2, h3, h4, h5, h6, h7, h8, h9, h10, h11, h12, h13, h14, h15, h16, h17, h18⟩
+  · rw [he]; exact ⟨h1, h2, h3, h4, h5, h6, h7, h8, h9, h10, h11, h12, h13, h14, h15, h16, h17, h18, h19⟩
+  · rw [he]; exact ⟨h1, h2, h3, h4, h5, h6, h7, h8, h9, h10, h11, h12, h13, h14, h15, h16, h17, h18, h19⟩
   · rw [he]
     have hop := hopen hc
     have hnd := h7
@@ -118,11 +123,60 @@ theorem invQ_sendCore {s : State} (hi : InvQ s) {h x : Nat} (P : List Nat) (hh :
       cases hb : s.waitingSenders with
       | nil => rfl
       | cons y ys => have := h16 (by simp [hb]); simp [hw] at this
-    constructor <;> simp only [orphanize_apply] <;> grind
+    constructor <;> simp only [upd_apply, orphanize_apply] <;> grind
   · rw [he]
     have hop := hopen hc
-    constructor <;> simp only [orphanize_apply] <;> grind
+    constructor <;> simp only [upd_apply, orphanize_apply] <;> grind
   · rw [he]
-    constructor <;> simp only [orphanize_apply] <;> grind
+    constructor <;> simp only [upd_apply, orphanize_apply] <;> grind
+
+
+/-- `receive_nowait`'s body keeps the invariant -/
+theorem invQ_recvCore {s : State} (hi : InvQ s) (h : Nat) : InvQ (recvCore s h).1 := by
+  obtain ⟨h1, h2, h3, h4, h5, h6, h7, h8, h9, h10, h11, h12, h13, h14, h15, h16, h17, h18, h19⟩ := hi
+  rcases recvCore_cases s h with ⟨hc, he⟩ | ⟨hc, hws, hb, ho, he⟩ | ⟨hc, hws, hb, ho, he⟩ |
+    ⟨hc, hws, y, ys, hb, he⟩ | ⟨hc, u, x, b, rest, y, ys, hws, hb, he⟩
+  · rw [he]; exact ⟨h1, h2, h3, h4, h5, h6, h7, h8, h9, h10, h11, h12, h13, h14, h15, h16, h17, h18, h19⟩
+  · rw [he]; exact ⟨h1, h2, h3, h4, h5, h6, h7, h8, h9, h10, h11, h12, h13, h14, h15, h16, h17, h18, h19⟩
+  · rw [he]; exact ⟨h1, h2, h3, h4, h5, h6, h7, h8, h9, h10, h11, h12, h13, h14, h15, h16, h17, h18, h19⟩
+  · rw [he]
+    have hwr : s.waitingReceivers = [] := h13 (by simp [hb])
+    have hlen : ys.length + 1 = s.buffer.length := by simp [hb]
+    constructor <;> grind
+  · rw [he]
+    have hlen : ys.length = s.buffer.length := by
+      have := congrArg List.length hb; simp at this; omega
+    have hwr : s.waitingReceivers = [] := h16 (by simp [hws])
+    have hnd := h10
+    rw [hws] at hnd
+    simp only [List.map_cons, List.nodup_cons, List.mem_map, not_exists, not_and] at hnd
+    have hur : ∀ x' b', (u, x', b') ∉ rest := fun x' b' hm => hnd.1 (u, x', b') hm rfl
+    have hsub : ∀ w, w ∈ s.waitingSenders ↔ w = (u, x, b) ∨ w ∈ rest := by
+      intro w; rw [hws]; simp
+    have hnd2 : (rest.map (·.1)).Nodup := hnd.2
+    have hfull : fits s.maxSize s.buffer.length = false := h14 (by simp [hws])
+    have hhead := h8 u x b (by simp [hws])
+    have hset := h11 u x
+    have hunset := h12 u x
+    have hno : s.openSend ≠ 0 ∨ (∀ t, s.pc t ≠ .recvWoken none ∧ s.pc t ≠ .recvWokenMC none) := by
+      by_cases h0 : s.openSend = 0
+      · right; intro t
+        constructor
+        · intro hp; have := (h18 t (Or.inl hp)).2.2; simp [hws] at this
+        · intro hp; have := (h18 t (Or.inr hp)).2.2; simp [hws] at this
+      · left; exact h0
+    have hbuf0 : ys = [] ↔ s.buffer = [] := by
+      constructor
+      · intro h; subst h; cases hb' : s.buffer with
+        | nil => rfl
+        | cons a as => simp [hb'] at hlen
+      · intro h; rw [h] at hlen; exact List.eq_nil_of_length_eq_zero hlen
+    rcases wakeSender_cases (s.pc u) with ⟨x0, hp0, hw0⟩ | ⟨hp0, hw0⟩
+    · rw [hw0]
+      clear hnd hb
+      constructor <;> simp only [upd_apply] <;> grind
+    · rw [hw0]
+      clear hnd hb
+      constructor <;> simp only [upd_apply] <;> grind
 
 end AnyioModel.Stream.Memory
